@@ -357,3 +357,14 @@ def bodiless(chk, repo, rule="C04.bodiless"):
                     chk.violation(rule, c, K.short(c), "!(self._must_be_empty_body)",
                                   f"{cname}.{m.name}() hands body data to the payload writer of a response that must not have a body (HEAD, 1xx, 204, 304): the bytes are written raw after the header block and are read by the peer as the start of the next response")
     chk.expect_count(rule, n, 4, "calls handing body data to the payload writer in the response classes")
+    # the writer's own compressor emits a header and a trailer block at write_eof() even if no data was written: it must not be switched on for
+    # a response that may not have a body
+    sr = repo.cls(WRESP, "StreamResponse")
+    for m in sr.methods.values():
+        for c in prog.calls_in(m.node):
+            if norm.raw(c.func) == "self._payload_writer.enable_compression":
+                if PC.has_lit(PC.pc(c), "self._must_be_empty_body", False) is not None:
+                    chk.ok(rule, c, f"StreamResponse.{m.name}(): the writer's compressor is enabled only when the response may have a body")
+                else:
+                    chk.violation(rule, c, K.short(c, 60), "!(self._must_be_empty_body)",
+                                  f"StreamResponse.{m.name}() enables the stream compressor on HEAD / 204 / 304 responses: write_eof() flushes it and 8 (deflate) or 20 (gzip) unframed bytes follow the header block, in front of the next response on the connection")
